@@ -370,7 +370,7 @@ class Server(Acceptor):
         try:
             self.ixes[ca].serviceReceives()
         except OSError as ex:
-            logger.error("Closing incoming socket on %s.\n%s\n", ix.cs.getpeername(), ex)
+            logger.error("Closing incoming socket on %s.\n%s\n", ca, ex)
             self.removeIx(ca=ca)  # also closes ix
 
 
@@ -382,7 +382,7 @@ class Server(Acceptor):
             try:
                 ix.serviceReceives()
             except OSError as ex:
-                logger.error("Closing incoming socket on %s.\n%s\n", ix.cs.getpeername(), ex)
+                logger.error("Closing incoming socket on %s.\n%s\n", ca, ex)
                 self.removeIx(ca=ca)  # also closes ix
 
 
